@@ -131,6 +131,9 @@ func c01Gen(g *core.Gen, emit func(*p2Case)) {
 	genP2Deviations(g, dup, true, 1, mk(dup, 1))
 	coll := scen.P2Config{Sizes: []int{27, 20}, Slice: 8, Blocks: 3, Class: "crccollide"}
 	genP2Deviations(g, coll, true, 1, mk(coll, 1))
+	for _, cf := range []scen.P2Config{{Sizes: []int{59, 20}, Slice: 8, Blocks: 3, Class: "crcfield"}, {Sizes: []int{14, 9}, Slice: 4, Blocks: 2, Class: "crcfield"}} {
+		genP2Deviations(g, cf, true, 1, mk(cf, 1))
+	}
 	// three files, more blocks, goroutines
 	cfg3 := scen.P2Config{Sizes: []int{9, 4, 13}, Slice: 4, Blocks: 5, Class: "uniq", G: 2}
 	d3 := 1
